@@ -124,7 +124,7 @@ fn run_property(id: &str, eng: &Engine, a: &Args) -> (&'static str, Vec<&'static
             ("E2: utils::get_mean on generated u32 vectors incl. sums beyond 2^32 (few huge samples; thousands of ~1 MB block sizes) vs the exact u128 mean.", vec![])
         }
         "C13" => {
-            let n = if q { 150 } else { 20_000 };
+            let n = if q { 150 } else { 4_000 };
             eng.explore(
                 "thread-pools",
                 scaled(n, a),
